@@ -336,7 +336,7 @@ def sh(cmd, cwd, timeout, log=None):
     t0 = time.time()
     full = 'ulimit -v %d; exec %s' % (MEM_KB, cmd)
     try:
-        p = subprocess.Popen(['bash', '-c', full], cwd=cwd, env=ENV, stdin=subprocess.DEVNULL, stdout=subprocess.PIPE,
+        p = subprocess.Popen(['bash', '-c', full], cwd=cwd, env=ENV, stdin=subprocess.PIPE, stdout=subprocess.PIPE,
                              stderr=subprocess.STDOUT, text=True, start_new_session=True)
         try:
             out, _ = p.communicate(timeout=timeout)
@@ -443,12 +443,30 @@ def load_known():
 # property driver
 
 
+def ensure_dev_null():
+    """Seen in this sandbox: something (`rustc -o /dev/null`) replaced /dev/null by a regular file; cargo then feeds its
+    contents to `rustc -` as source.  Recreate the device node when that happened (needs root; ignored otherwise)."""
+    import stat
+    try:
+        if not stat.S_ISCHR(os.stat('/dev/null').st_mode):
+            os.remove('/dev/null')
+            os.mknod('/dev/null', 0o666 | stat.S_IFCHR, os.makedev(1, 3))
+            os.chmod('/dev/null', 0o666)
+    except OSError:
+        pass
+
+
 def run_property(prop, tier, seed, kernels, level_text, outside, explanation):
     """Execute all kernels' harnesses, triage, write evidence, return exit code."""
+    ensure_dev_null()
     t0 = time.time()
     known = load_known()
     wroot = os.path.join(WORK, prop)
     os.makedirs(wroot, exist_ok=True)
+    # one run per property work dir at a time
+    import fcntl
+    lockf = open(os.path.join(wroot, '.lock'), 'w')
+    fcntl.flock(lockf, fcntl.LOCK_EX)
     logdir = os.path.join(wroot, 'logs')
     shutil.rmtree(logdir, ignore_errors=True)
     os.makedirs(logdir)
